@@ -24,7 +24,9 @@ RULE = ("trajectories: nsamples 1..6 x nspecies 1..4 x (grid w,h,d 1..3 | graph 
         "(label / index / float index / object; index / tuple / list / coordinate object / numpy int); every species x sample state, "
         "whole states, merged trajectories; lookups: before first, after last, on every sample, exact midpoints, random in-between, "
         "x three policies x four query forms (number, UnitValue same unit, UnitValue other unit, text); malformed stream: unknown "
-        "species / out-of-range cell / sample, non-time query, unknown policy.  A case is non-trivial when the trajectory has "
+        "species / out-of-range cell / sample, non-time query, unknown policy; object re-use: after the queries the caller assigns "
+        "another space (transposed / larger) and a network with reversed species order to the system object it had passed to "
+        "RDTrajectory and up to 16 accessor calls are repeated (results must not change).  A case is non-trivial when the trajectory has "
         ">1 of the dimension being indexed (or, for lookups, when the query is not outside the sampled range); distinct by "
         "(shape, kind, query)")
 ASSUMPTIONS = [
@@ -53,10 +55,11 @@ class Coord:
         self.x, self.y, self.z = x, y, z
 
 
-def make_system(rng, kind, shape, ns, usys):
+def make_system(rng, kind, shape, ns, usys, labels=None):
     """an RDSystem of the repository's own types: grid (w,h,d) or graph (n nodes, random edges)"""
     from strengths import rdsystem_from_dict
-    species = [{"label": LABELS[i], "density": 1 + i} for i in range(ns)]
+    labels = labels or LABELS
+    species = [{"label": labels[i], "density": 1 + i} for i in range(ns)]
     net = {"species": species, "reactions": []}
     if kind == "grid":
         w, h, d = shape
@@ -433,6 +436,49 @@ def check_trajectory(ctx, c, qs, ans):
                     ctx.disagree("traj:" + q["q"], case, {"values": vals, "units": str(units)}, m)
 
 
+def canon(st, res):
+    """comparable form of one accessor outcome"""
+    if st == "error":
+        return ("error",)
+    if res is None or isinstance(res, int):
+        return ("index", res)
+    vals, units = vals_of(res)
+    return ("ok", tuple(vals), str(units))
+
+
+def caller_reuses_system(ctx, rng, c, qs):
+    """the trajectory owns a copy of its system: what the caller does afterwards with the object it passed (another space for the
+    next experiment, another network) must not change what the accessors return"""
+    traj, system = c["traj"], c["system"]
+    picks = [q for q in qs if not q.get("malformed") and q["q"] != "index"]
+    if len(picks) > 16:
+        picks = rng.sample(picks, 16)
+    before = [canon(*run_query(traj, q)) for q in picks]
+    # the caller goes on with its own object
+    if c["kind"] == "grid":
+        w, h, d = c["shape"]
+        shape2 = (h, w, d) if w != h else (w + 1, h, d)
+        other = make_system(rng, "grid", shape2, c["ns"], ("µm", "s", "molecule"), labels=LABELS[:c["ns"]][::-1] + LABELS[c["ns"]:])
+    else:
+        other = make_system(rng, "graph", c["shape"] + 1, c["ns"], ("µm", "s", "molecule"), labels=LABELS[:c["ns"]][::-1] + LABELS[c["ns"]:])
+    try:
+        system.space = other.space
+        system.network = other.network
+    except Exception as e:  # noqa
+        ctx.notes.append("could not re-use the caller's system: %r" % (e,))
+        return
+    after = [canon(*run_query(traj, q)) for q in picks]
+    ctx.count("caller_reuses_system")
+    ctx.case((c["kind"], c["N"], c["ns"], c["nc"], "reuse"), nontrivial=c["nc"] > 1 or c["ns"] > 1)
+    for q, b, a in zip(picks, before, after):
+        if a != b:
+            ctx.violation("aliasing:system", "%s changes after the caller re-used the system object it had passed to RDTrajectory "
+                          "(space %s -> %s, species order reversed): %s then %s" % (
+                              q["q"], c["shape"], "another space", b[:2] if b[0] != "ok" else list(b[1])[:6], a[:2] if a[0] != "ok" else list(a[1])[:6]),
+                          {"traj": case_json(c), "query": describe(q), "reuse": True}, impl=common.jsonable(a), expected=common.jsonable(b))
+            break
+
+
 def simulated_cases(ctx, rng, n):
     """trajectories produced by the real engine (Euler), wrapped like the constructed ones"""
     from strengths import rdsystem_from_dict, simulate
@@ -515,6 +561,8 @@ def run(ctx):
                 else:
                     ans = a["ok"]
             check_trajectory(ctx, c, qs, ans)
+            if c["source"] == "constructed":
+                caller_reuses_system(ctx, rng, c, qs)
         if ctx.time_left() < 10:
             ctx.notes.append("time budget reached after %d trajectories" % (b0 + len(chunk)))
             break
@@ -550,6 +598,33 @@ def replay(ctx, rec):
     N = len(ts)
     data = cj["data"]
     out = {"trajectory": {"shape": [N, ns, nc], "times": [float(t) for t in ts], "time_unit": cj["tsys"][1]}, "query": q}
+    if case.get("reuse") and q is not None:
+        import random
+        mj = q["mj"]
+
+        spj, pj = mj.get("sp"), mj.get("pos")
+        # the arguments are fixed before the caller touches its system again (a Species object is read for its label only)
+        sp_ = None if spj is None else (spj.get("label") or (system.network.species[LABELS.index(spj["obj"])].copy() if "obj" in spj else spj["idx"]))
+        ps_ = None if pj is None else (tuple(pj["coords"]) if "coords" in pj else Coord(*pj["obj"]) if "obj" in pj else pj["idx"])
+
+        def run1():
+            if mj["q"] == "point":
+                return canon(*call(lambda: traj.get_trajectory_point(sp_, mj["k"], ps_)))
+            if mj["q"] == "state":
+                return canon(*call(lambda: traj.get_state(sp_, mj["k"])))
+            return canon(*call(lambda: traj.get_trajectory(sp_, ps_, merge=mj["merge"])))
+        b = run1()
+        if cj["kind"] == "grid":
+            w, h, d = shape
+            shape2 = (h, w, d) if w != h else (w + 1, h, d)
+            other = make_system(random.Random(0), "grid", shape2, ns, ("µm", "s", "molecule"), labels=LABELS[:ns][::-1] + LABELS[ns:])
+        else:
+            other = make_system(random.Random(0), "graph", shape + 1, ns, ("µm", "s", "molecule"), labels=LABELS[:ns][::-1] + LABELS[ns:])
+        system.space = other.space
+        system.network = other.network
+        a = run1()
+        out.update(before=common.jsonable(b), after_reuse_of_the_callers_system=common.jsonable(a))
+        return a == b, out
     if q is None:
         flat = [float(v) for v in np.asarray(traj.data.value).ravel()]
         out.update(impl=flat[:20], expected=data[:20])
